@@ -4,9 +4,9 @@ CONSTANTS
   TLen = 4
   LLen = 3
   Fns = {}
-  K1 = 700
-  K2 = 27
-  K3 = 9
-  K4 = 5
+  K1 = 400
+  K2 = 18
+  K3 = 6
+  K4 = 4
 INVARIANTS Emit
 CHECK_DEADLOCK FALSE
